@@ -367,10 +367,11 @@ def _sc_cfgs(tier, regimes=("min_sum", "sum_product")):
     out = []
     N = 2
     while N <= nmax:
-        ks = range(1, N) if N <= 8 else (1, 4, 8, 11, 15)
-        for k in ks:
-            for fz, pi in ((0, 0), (1, 1)) + (((0, 1), (1, 0)) if (tier == "thorough" or N <= 4) else ()):
-                for regime in regimes:
+        for regime in regimes:
+            # N = 16 (thorough): measured 6 s (k=4) .. 195 s (k=11) per configuration in the min-sum regime; sum-product k=8 does not finish in 400 s
+            ks = range(1, N) if N <= 8 else ((1, 4, 8, 11) if regime == "min_sum" else (1, 4))
+            for k in ks:
+                for fz, pi in ((0, 0), (1, 1)) + (((0, 1), (1, 0)) if ((tier == "thorough" and N <= 8) or N <= 4) else ()):
                     out.append(Cfg("polar", N, k, fz, pi, None, regime))
         N *= 2
     if "min_sum" in regimes:
